@@ -149,7 +149,7 @@ func sendConfigs(thorough bool) []config {
 func recvConfigs(thorough bool) []config {
 	var out []config
 	depth := 5
-	lens := []int64{1, 5, 16384}
+	lens := []int64{0, 5, 16384} // 0 with padding: a frame that is charged in full and carries nothing a handler could read
 	pads := []int{-1, 255}
 	if thorough {
 		depth = 6
@@ -216,7 +216,7 @@ func transportConfigs(thorough bool) []tconfig {
 func cycleConfigs(thorough bool) []config {
 	var out []config
 	depth := 5 // every shard repeats this BFS to get the cycle list, so it stays shallow in both tiers
-	lens := []int64{1, 5, 16384}
+	lens := []int64{0, 5, 16384} // 0: with padding, a frame that consists of padding only
 	pads := []int{-1, 255}
 	if thorough {
 		lens = []int64{0, 1, 5, 16384}
